@@ -1,4 +1,9 @@
 import L21.Props.C11
+import L21.Props.C11P
 #print axioms L21.LefLex.c11_tokens_are_substrings
 #print axioms L21.LefLex.c11_token_bounds
 #print axioms L21.LefLex.c11_lex_total
+#print axioms L21.Lef.c11_fuel_never_exhausted
+#print axioms L21.Lef.c11_inner_loops_fuel
+#print axioms L21.Lef.c11_every_construct_consumes
+#print axioms L21.Lef.c11_parse_total
